@@ -489,3 +489,59 @@ def map_history(case: dict) -> dict:
             break
         out["steps"].append(st)
     return out
+
+
+# ---------------------------------------------------------------------------
+# C13: values built programmatically
+
+def value_case(case: dict) -> dict:
+    from nix_manipulator.expressions import AttributeSet, Binding
+    from nix_manipulator.expressions.expression import coerce_expression
+    from nix_manipulator.expressions.list import NixList
+    from nix_manipulator.parser import parse
+    pv, route = case["pv"], case["route"]
+
+    def build():
+        import copy
+        v = copy.deepcopy(pv)
+        if route == "from_dict":
+            return AttributeSet.from_dict({"k": v}).rebuild()
+        if route == "ctor_dict":
+            return AttributeSet({"k": v}).rebuild()
+        if route == "binding":
+            return AttributeSet(values=[Binding(name="k", value=v)]).rebuild()
+        if route == "nixlist":
+            return NixList(value=[v, 1]).rebuild()
+        if route == "item_assign":
+            src = parse("{ }\n")
+            src["k"] = v
+            return src.rebuild()
+        if route == "scope_assign":
+            src = parse("{ }\n")
+            src.expr.scope["k"] = v
+            return src.rebuild()
+        if route == "top":
+            if isinstance(v, dict):
+                return AttributeSet.from_dict(v).rebuild()
+            return coerce_expression(v).rebuild()
+        raise ValueError(route)
+    out: dict = {}
+    try:
+        with time_limit(10):
+            out["text"] = build()
+            out["text_again"] = build()
+    except BaseException as e:  # noqa: BLE001
+        if isinstance(e, (KeyboardInterrupt, SystemExit)):
+            raise
+        out["fail"] = _exc(e)
+        return out
+    try:
+        with time_limit(10):
+            t1 = parse(out["text"]).rebuild()
+            out["t1"] = t1
+            out["t2"] = parse(t1).rebuild()
+    except BaseException as e:  # noqa: BLE001
+        if isinstance(e, (KeyboardInterrupt, SystemExit)):
+            raise
+        out["reparse_fail"] = _exc(e)
+    return out
